@@ -68,6 +68,19 @@ def apply_edit(fk, p, e, rng):
         p.insert_function_call_on_unpickled_object("def f(obj):\n    return obj", compile_code=rng.random() < 0.3)
     elif e == "insert_python_obj":
         p.insert_python_obj(inb, [1, "a", {"k": 2}])
+    elif e == "setslice_reentrant":
+        def keep():
+            for o in list(p):
+                _ = (p.has_import, list(p.properties.calls), len(list(p.unsafe_imports())))      # consults the pickle's own views
+                if o.info.name != "MEMOIZE":
+                    yield o
+            yield fk.Global.create("os", "getpid")
+            yield fk.Pop()
+        ops = list(p)
+        try:
+            p[:] = keep()
+        except Exception:  # noqa: BLE001 - a view may raise on a broken program: the edit is abandoned as a whole
+            p[:] = ops
     elif e in ("extend_raises", "iadd_raises", "setslice_raises"):
         def gen():          # an iterable that fails after handing out some opcodes (e.g. a constant that cannot be encoded)
             yield op()
@@ -193,7 +206,7 @@ def run(ctx):
     k = 0
     for e in ["insert", "setitem", "delitem", "append", "extend", "pop", "setslice", "insert_python", "append_python",
               "insert_magic_int", "insert_function_call", "insert_python_obj", "reverse", "remove", "iadd", "delslice",
-              "insert_python_last", "clear_refill", "extend_raises", "iadd_raises", "setslice_raises"]:
+              "insert_python_last", "clear_refill", "extend_raises", "iadd_raises", "setslice_raises", "setslice_reentrant"]:
         for v1 in summ:
             for mid in ("source", "ast"):
                 v2 = summ[(k + 3) % len(summ)]
@@ -202,7 +215,7 @@ def run(ctx):
     # longer random histories
     alle = ["insert", "setitem", "delitem", "append", "extend", "iadd", "pop", "remove", "reverse", "setslice", "delslice",
             "clear_refill", "insert_python", "insert_python_last", "append_python", "insert_magic_int",
-            "insert_function_call", "insert_python_obj", "extend_raises", "iadd_raises", "setslice_raises"]
+            "insert_function_call", "insert_python_obj", "extend_raises", "iadd_raises", "setslice_raises", "setslice_reentrant"]
     for k in range(300 if ctx.quick else 5000):
         h = []
         for _ in range(ctx.rng.randrange(4, 12)):
@@ -233,7 +246,7 @@ def run(ctx):
     samples = [{"hist": r["hist"], "hex": r["hex"][:60], "steps": r["steps"][:3], "verdict": verdicts[r["id"]]}
                for r in records[:: max(1, len(records) // 4)][:4]]
     return finish(ctx, level="model_checking", failures=failures, evaluations=len(records), distinct_nontrivial=len(nontriv),
-                  rule=f"TLC checks Coherent on the design model of the two caches (all histories of length {maxlen} over 21 "
+                  rule=f"TLC checks Coherent on the design model of the two caches (all histories of length {maxlen} over 22 "
                        "edit kinds x 10 views, validity chosen nondeterministically) and emits every history that ends with a "
                        "read after an edit; each is replayed on real Pickled objects with concrete positions/opcodes; plus "
                        "random histories of length 5-12; non-trivial = at least one read follows an edit; distinct by (bytes, history)",
